@@ -217,6 +217,11 @@ func runC18Case(c cfg, seed uint64, f fault, keys map[string]struct{}) (reached 
 			if err != nil {
 				cs.sc.(*c18Conn).closeErr.Store(err.Error())
 			}
+			// a handler that says goodbye: the framework flushes what OnClose writes; on a broken connection this
+			// write fails in turn, which must not start another close
+			if vlib.Mix(cs.key)%2 == 0 {
+				_, _ = gc.Write([]byte("farewell"))
+			}
 			return gnet.None
 		},
 	})
